@@ -48,7 +48,7 @@ var fnWhitelist = map[string][]string{
 		"Info.Validate", "Export.Validate", "isContainedIn", "Exports.Validate", "Exports.HasExportContainingSubject", "Mapping.Validate",
 		"CreateValidationResults", "ResponsePermission.Validate", "Permissions.Validate",
 		"OperatorLimits.IsEmpty", "OperatorLimits.Validate", "ExternalAuthorization.Validate",
-		"UserScope.Validate", "SigningKeys.Validate", "Account.Validate", "AccountClaims.Validate", "GenericClaims.Validate", "AuthorizationRequestClaims.Validate", "AuthorizationResponseClaims.Validate", "TimeRange.Validate", "Limits.Validate", "User.Validate", "UserClaims.Validate", "ParseServerVersion", "Operator.validateAccountServerURL", "ValidateOperatorServiceURL", "Operator.validateOperatorServiceURLs", "Operator.Validate", "OperatorClaims.Validate", "OperatorClaims.ExpectedPrefixes", "AccountClaims.ExpectedPrefixes", "UserClaims.ExpectedPrefixes", "ActivationClaims.ExpectedPrefixes", "AuthorizationRequestClaims.ExpectedPrefixes", "AuthorizationResponseClaims.ExpectedPrefixes", "GenericClaims.ExpectedPrefixes", "loadClaims", "ClaimsData.verify", "Decode", "v1OperatorClaims.migrateV1", "v1UserClaims.migrateV1", "v1ActivationClaims.migrateV1", "SigningKeys.Add", "v1AccountClaims.migrateV1", "UserClaims.Encode", "ActivationClaims.Encode", "OperatorClaims.Encode", "AccountClaims.Encode", "GenericClaims.Encode", "AuthorizationRequestClaims.Encode", "AuthorizationResponseClaims.Encode", "OperatorClaims.updateVersion", "AccountClaims.updateVersion", "UserClaims.updateVersion", "ActivationClaims.updateVersion", "AuthorizationRequestClaims.updateVersion", "AuthorizationResponseClaims.updateVersion", "DecodeOperatorClaims", "DecodeAccountClaims", "DecodeUserClaims", "DecodeAuthorizationRequestClaims", "DecodeAuthorizationResponseClaims",
+		"UserScope.Validate", "SigningKeys.Validate", "Account.Validate", "AccountClaims.Validate", "GenericClaims.Validate", "AuthorizationRequestClaims.Validate", "AuthorizationResponseClaims.Validate", "TimeRange.Validate", "Limits.Validate", "User.Validate", "UserClaims.Validate", "ParseServerVersion", "Operator.validateAccountServerURL", "ValidateOperatorServiceURL", "Operator.validateOperatorServiceURLs", "Operator.Validate", "OperatorClaims.Validate", "OperatorClaims.ExpectedPrefixes", "AccountClaims.ExpectedPrefixes", "UserClaims.ExpectedPrefixes", "ActivationClaims.ExpectedPrefixes", "AuthorizationRequestClaims.ExpectedPrefixes", "AuthorizationResponseClaims.ExpectedPrefixes", "GenericClaims.ExpectedPrefixes", "loadClaims", "ClaimsData.verify", "parseHeaders", "Decode", "v1OperatorClaims.migrateV1", "v1UserClaims.migrateV1", "v1ActivationClaims.migrateV1", "SigningKeys.Add", "v1AccountClaims.migrateV1", "UserClaims.Encode", "ActivationClaims.Encode", "OperatorClaims.Encode", "AccountClaims.Encode", "GenericClaims.Encode", "AuthorizationRequestClaims.Encode", "AuthorizationResponseClaims.Encode", "OperatorClaims.updateVersion", "AccountClaims.updateVersion", "UserClaims.updateVersion", "ActivationClaims.updateVersion", "AuthorizationRequestClaims.updateVersion", "AuthorizationResponseClaims.updateVersion", "DecodeOperatorClaims", "DecodeAccountClaims", "DecodeUserClaims", "DecodeAuthorizationRequestClaims", "DecodeAuthorizationResponseClaims",
 	},
 	"V1": {
 		"Subject.HasWildCards", "Subject.IsContainedIn", "cleanSubject",
@@ -242,7 +242,10 @@ var nilableElems = map[string]bool{"Export": true, "Import": true}
 
 // opaqueFns: package functions that translated code may call but that stay outside the translation (their behaviour
 // is a parameter of the translated caller: a field of the generated structure `Opq`)
-var opaqueFns = map[string]bool{"parseClaims": true, "ClaimsData.encode": true, "parseHeaders": true, "decodeString": true, "loadOperator": true, "loadAccount": true, "loadUser": true, "loadActivation": true, "loadAuthorizationRequest": true, "loadAuthorizationResponse": true, "DecodeActivationClaims": true, "RenamingSubject.ToSubject": true}
+// opaqueFnsV1: additionally opaque in the v1compat package only
+var opaqueFnsV1 = map[string]bool{"parseHeaders": true}
+
+var opaqueFns = map[string]bool{"parseClaims": true, "ClaimsData.encode": true, "decodeString": true, "loadOperator": true, "loadAccount": true, "loadUser": true, "loadActivation": true, "loadAuthorizationRequest": true, "loadAuthorizationResponse": true, "DecodeActivationClaims": true, "RenamingSubject.ToSubject": true}
 
 // foreignOpaque: functions of other packages that translated code may call; each becomes a field of `Opq`
 // (name, Lean type of the field, and how a two-value result is read)
@@ -644,7 +647,7 @@ func (g *fnGen) opaqueCallee(call *ast.CallExpr) (string, *types.Func) {
 			key = n.Obj().Name() + "." + fn.Name()
 		}
 	}
-	if !opaqueFns[key] {
+	if !opaqueFns[key] && !(g.short == "V1" && opaqueFnsV1[key]) {
 		return "", nil
 	}
 	return key, fn
@@ -2326,6 +2329,9 @@ func (c *fnCtx) assign(b *block, x *ast.AssignStmt) {
 					if id, ok := l.(*ast.Ident); ok && id.Name != "_" && x.Tok == token.DEFINE {
 						if o := c.g.p.TypesInfo.Defs[id]; o != nil {
 							if _, isI := c.g.ifaceOf(o.Type()); isI {
+								c.nilVars[o] = true
+							}
+							if i < len(fi.nilPtrRes) && fi.nilPtrRes[i] {
 								c.nilVars[o] = true
 							}
 						}
